@@ -44,6 +44,9 @@ def cases(tier, seed):
     for n, m, t in ((2, 3, 2), (3, 1, 1), (1, 1, 3)):
         out.append({"what": "delete", "n": n, "m": m, "tiers": t})
     out.append({"what": "delete_round", "shape": "Cylinder"})
+    # the same with the counts given through the shape's / stack's own chop calls (held by one operation per direction)
+    out.append({"what": "delete", "n": 2, "m": 3, "tiers": 2, "chops": "shape"})
+    out.append({"what": "delete_round", "shape": "Cylinder", "chops": "shape"})
     return out
 
 
@@ -372,13 +375,45 @@ def run_delete(case):
         else:
             op = getattr(e, kind)[idx]
         corners = sorted(map(tuple, np.round(op.point_array, 6)))
-        for o in e.operations:
-            for a in range(3):
-                o.chop(a, count=1)
+
+        def chop(ent):
+            if case.get("chops") != "shape":
+                for o in ent.operations:
+                    for a in range(3):
+                        o.chop(a, count=1)
+            elif kind == "grid":
+                ent.chop(count=2)
+                for o in ent.get_slice(1, 0):
+                    o.chop(0, count=2)
+                for o in ent.get_slice(0, 0):
+                    o.chop(1, count=2)
+            else:
+                ent.chop_axial(count=2)
+                ent.chop_radial(count=2)
+                ent.chop_tangential(count=2)
+
+        chop(e)
+        # the complete mesh, for reference: the curved edges of every block
+        full = build()
+        chop(full)
+        mesh_full = cb.Mesh()
+        mesh_full.add(full)
+        path = os.path.join(runner.scratch_dir(), f"c19_{os.getpid()}")
+        mesh_full.write(path)
+        d_full = foamdict.parse(open(path).read())
+
+        def curved(d):
+            pos = [tuple(round(x, 6) for x in v["pos"]) for v in d["vertices"]]
+            return {frozenset((pos[ed["v"][0]], pos[ed["v"][1]])): ed["kind"] for ed in d["edges"]}
+
+        def block_edges(d):
+            pos = [tuple(round(x, 6) for x in v["pos"]) for v in d["vertices"]]
+            return {frozenset((pos[b["v"][c1]], pos[b["v"][c2]])) for b in d["blocks"] for c1, c2 in bm.EDGES}
+
+        curved_full = curved(d_full)
         mesh = cb.Mesh()
         mesh.add(e)
         mesh.delete(op)
-        path = os.path.join(runner.scratch_dir(), f"c19_{os.getpid()}")
         all_cells = [sorted(map(tuple, np.round(o.point_array, 6))) for o in e.operations]
         want = [c for c in all_cells if c != corners]
         # the deletion holds for every later assembly of the same mesh as well
@@ -397,6 +432,12 @@ def run_delete(case):
             blocks = [sorted(tuple(round(x, 6) for x in d["vertices"][v]["pos"]) for v in b["v"]) for b in d["blocks"]]
             if sorted(blocks) != sorted(want):
                 violations.append({"clause": "delete-removed-other-block", "coords": co, "detail": f"{len(blocks)} blocks written, {len(want)} expected; deleted cell still present: {corners in blocks}"})
+                break
+            # ... "and no other": the blocks that remain keep their curved edges
+            have = curved(d)
+            lost = [sorted(k) for k in block_edges(d) if k in curved_full and have.get(k) != curved_full[k]]
+            if lost:
+                violations.append({"clause": "delete-removed-curved-edges-of-other-blocks", "coords": co, "detail": f"{len(lost)} edges of remaining blocks are {curved_full[frozenset(map(tuple, lost[0]))]} edges in the complete mesh and straight (or another kind) after the deletion, e.g. {lost[0]}"})
                 break
     return violations, execs
 
